@@ -37,6 +37,9 @@ def run(ctx, rep):
     r4(ctx, prog, evalr, rep)
     r5(ctx, prog, ev, evalr, rep)
     r6(ctx, prog, evalr, rep)
+    from vflib.report import Shared
+    from rules import c04
+    c04.r8(prog, ev, Shared(rep, {"C04-R8": "C15-R7"}, lender="C04"))
     if ctx.tier == "thorough":
         from vflib import witness
         witness.report(rep, "C15-W", ['W4'], "witness: the engine instantiates at a second Queryable implementor defined outside the crate")
